@@ -285,7 +285,25 @@ MH_KERNELS = [("sha1", "mh_sha1/mh_sha1_block_%s.asm", "mh_sha1_block_%s"), ("sh
 MH_FAMS = ["sse", "avx", "avx2", "avx512"]
 
 
-def mh_case(img, alg, func, nblocks=2):
+MUR_C1, MUR_C2 = 0x87c37b91114253d5, 0x4cf5ad432745937f
+
+
+def murmur_body(h1, h2, k1, k2, ct, p):
+    """one 16-byte step of MurmurHash3_x64_128"""
+    k1 = brol(simp(bmul(k1, MUR_C1, 64)), 31, 64)
+    k1 = simp(bmul(k1, MUR_C2, 64))
+    h1 = brol(simp(bxor(h1, k1, 64)), 27, 64)
+    h1 = simp(badd(h1, h2, 64))
+    h1 = _reg(ct, p + "h1", simp(badd(bmul(h1, 5, 64), 0x52dce729, 64)))
+    k2 = brol(simp(bmul(k2, MUR_C2, 64)), 33, 64)
+    k2 = simp(bmul(k2, MUR_C1, 64))
+    h2 = brol(simp(bxor(h2, k2, 64)), 31, 64)
+    h2 = simp(badd(h2, h1, 64))
+    h2 = _reg(ct, p + "h2", simp(badd(bmul(h2, 5, 64), 0x38495ab5, 64)))
+    return h1, h2
+
+
+def mh_case(img, alg, func, nblocks=2, murmur=False):
     """multi-hash block function: (input, digests[words][16], frame_buffer[1024], num_blocks); 16 segments, segment s takes dword s
     of each 64-byte row of the 1024-byte block as its message word; every segment's digest must be the iterated standard compression"""
     A = ALG[alg]
@@ -295,6 +313,9 @@ def mh_case(img, alg, func, nblocks=2):
     dg = c.region("digests", nw * 64, "state", align_off=0)
     fb = c.region("frame_buffer", 1024, "state", align_off=0)
     c.args = [inp, dg, fb, nblocks]
+    if murmur:
+        md = c.region("murmur_digest", 16, "state", align_off=8)
+        c.args = [inp, dg, fb, md, nblocks]
     out = aescases_Outcome(c.name)
     if func not in img.symbols:
         out.error = "symbol %s not found" % func
@@ -326,6 +347,15 @@ def mh_case(img, alg, func, nblocks=2):
                     st = [_reg(ct, "s%d_b%d_H%d" % (sgm, b, k), x) for k, x in enumerate(st)]
             spec.append(st)
         info["spec"] = spec
+        if murmur:
+            m.scalar_canon_mnems = {"add", "lea", "imul", "xor", "rol", "ror", "rorx"}
+            MR = regs["murmur_digest"]
+            h1, h2 = z3.BitVec("in_murmur_h1", 64), z3.BitVec("in_murmur_h2", 64)
+            mem.set_value(MR, 0, h1, 64)
+            mem.set_value(MR, 8, h2, 64)
+            for ch in range(64 * nblocks):
+                h1, h2 = murmur_body(h1, h2, mem.get(mr, 16 * ch, 64), mem.get(mr, 16 * ch + 8, 64), ct, "mur%d_" % ch)
+            info["mur"] = (h1, h2)
     res = run_case(img, c, prepare=prepare, max_steps=6000000)
     out.steps = res.steps
     if res.error:
@@ -348,9 +378,26 @@ def mh_case(img, alg, func, nblocks=2):
             if verdict == "proved":
                 out.discharged += 1
             elif verdict == "refuted":
-                out.bad(["C05"], "mhkernel:digest", "%s: interim digest word %d of segment %d differs from SHA over the segment's words (%s)" % (c.name, w, sgm, ("got %s, standard %s" % (model.get("lhs"), model.get("rhs"))) if isinstance(model, dict) else "solver model"))
+                out.bad(["C10"] if murmur else ["C05"], "mhkernel:digest", "%s: interim digest word %d of segment %d differs from SHA over the segment's words (%s)" % (c.name, w, sgm, ("got %s, standard %s" % (model.get("lhs"), model.get("rhs"))) if isinstance(model, dict) else "solver model"))
             else:
                 out.error = "solver unknown on digest word %d segment %d" % (w, sgm)
+    if murmur:
+        MR = res.regions["murmur_digest"]
+        for k in range(2):
+            got = res.mem.get(MR, 8 * k, 64)
+            outputs.append(("murmur_digest[%d]" % k, got, 64))
+            out.obligations += 1
+            verdict, model, dt = prove_equal(got, info["mur"][k], 64, hyps=[], sim=ct)
+            if verdict != "proved" and verdict != "refuted":
+                verdict, model, dt = prove_equal(got, info["mur"][k], 64, hyps=hyps, sim=ct)
+            out.queries += 1
+            out.solver_s += dt
+            if verdict == "proved":
+                out.discharged += 1
+            elif verdict == "refuted":
+                out.bad(["C10"], "mhkernel:murmur", "%s: murmur state word %d after the call differs from MurmurHash3_x64_128 over the %d bytes (%s)" % (c.name, k, 1024 * nblocks, ("got %s, standard %s" % (model.get("lhs"), model.get("rhs"))) if isinstance(model, dict) else "solver model"))
+            else:
+                out.error = "solver unknown on murmur word %d" % k
     out.queries += ct.proved
     out.solver_s += ct.solver_s
     for (kind, a, n, what, desc) in res.violations:
